@@ -23,6 +23,7 @@ import (
 	"google.golang.org/protobuf/proto"
 	"google.golang.org/protobuf/types/known/timestamppb"
 
+	"github.com/prometheus/alertmanager/eventrecorder"
 	"github.com/prometheus/alertmanager/silence"
 	pb "github.com/prometheus/alertmanager/silence/silencepb"
 
@@ -66,6 +67,7 @@ type Step struct {
 	Pool   []int  `json:"pool,omitempty"`
 	ID     string `json:"id,omitempty"`
 	Edit   string `json:"edit,omitempty"`
+	Unsorted bool `json:"unsorted,omitempty"` // create: several matchers, NOT in alphabetical order of their names / values
 	Hosts  int    `json:"hosts,omitempty"` // create: the new silence matches h=~"host-0000|host-0001|..." with this many names
 	Params []QP   `json:"params,omitempty"`
 	Now    int64  `json:"now,omitempty"`
@@ -74,6 +76,7 @@ type Step struct {
 
 type Case struct {
 	Retention int64  `json:"retention"`
+	Recorder  bool   `json:"recorder,omitempty"` // both instances run with a REAL event recorder and record-enabled request contexts (--enable-feature=event-recorder)
 	MaxSil    int    `json:"max_silences,omitempty"` // Limits.MaxSilences on BOTH instances (0 = none): a limit on API creates, never on Merge
 	MaxSize   int    `json:"max_size,omitempty"`     // Limits.MaxSilenceSizeBytes on BOTH instances (0 = none)
 	Vers      []Ver  `json:"vers"`
@@ -87,7 +90,7 @@ type Case struct {
 
 var (
 	rePats    = []string{"1|2", "x.+", ".*", "x.*", ".+", ".*1"}
-	badPats   = []string{"("}
+	badPats   = []string{"(", "a{2,1}"}
 	lblValues = []string{"1", "2", "x1", "x1\n", "1\n2"} // incl. values with a line break ("." never matches one)
 	testIDs   = []string{"sil-a", "sil-b", "sil-c"}
 )
@@ -169,6 +172,7 @@ type runner struct {
 	tie    bool     // two different versions of one id with the same update time were seen
 	refuse bool     // a local update was refused by the LWW store (same instant / future-dated stored version)
 	gcRan  bool
+	recorders []eventrecorder.Recorder
 }
 
 func (r *runner) cid(id string) string {
@@ -312,6 +316,11 @@ func encode(recs []*pb.MeshSilence) []byte {
 func (r *runner) newInst() *inst {
 	i := &inst{ref: map[string]*pb.MeshSilence{}, timely: map[string]bool{}}
 	opts := silence.Options{Retention: r.ret, Metrics: prometheus.NewRegistry()}
+	if r.c.Recorder {
+		rec := eventrecorder.NewRecorderFromConfig(eventrecorder.Config{}, "verif", nil, prometheus.NewRegistry())
+		r.recorders = append(r.recorders, rec)
+		opts.EventRecorder = rec
+	}
 	if r.c.MaxSize > 0 || r.c.MaxSil > 0 {
 		opts.Limits = silence.Limits{MaxSilenceSizeBytes: func() int { return r.c.MaxSize }, MaxSilences: func() int { return r.c.MaxSil }}
 	}
@@ -540,6 +549,9 @@ func (r *runner) exec(k int) {
 	ix := stp.Inst % 2
 	i := r.in[ix]
 	ctx := context.Background()
+	if r.c.Recorder {
+		ctx = eventrecorder.WithEventRecording(ctx) // what the API handlers do for POST / DELETE
+	}
 	r.tags["op/"+stp.Kind]++
 	label := fmt.Sprintf("step %d (%s)", k, stp.Kind)
 	switch stp.Kind {
@@ -612,6 +624,10 @@ func (r *runner) exec(k int) {
 		sil := &pb.Silence{StartsAt: timestamppb.New(time.Unix(0, now)), EndsAt: timestamppb.New(time.Unix(0, now+int64(time.Hour))),
 			MatcherSets: []*pb.MatcherSet{{Matchers: []*pb.Matcher{{Type: pb.Matcher_REGEXP, Name: "h", Pattern: hostPattern(stp.Hosts)}}}},
 			CreatedBy:   "local", Comment: fmt.Sprintf("created at step %d", k)}
+		if stp.Unsorted {
+			sil.MatcherSets = []*pb.MatcherSet{{Matchers: []*pb.Matcher{{Name: "b", Pattern: "2"}, {Type: pb.Matcher_REGEXP, Name: "a", Pattern: "x.*"}, {Type: pb.Matcher_NOT_EQUAL, Name: "b", Pattern: "1"}, {Name: "a", Pattern: "x1"}}},
+				{Matchers: []*pb.Matcher{{Name: "b", Pattern: "x1"}, {Name: "a", Pattern: "2"}}}}
+		}
 		inTerm := r.coqSil(sil)
 		i.bcast = nil
 		err := i.s.Set(ctx, sil)
@@ -1012,6 +1028,65 @@ func capacityCases(g *vh.Rand) []Case {
 	return out
 }
 
+// mixedBatchCases: a gossip message (and a full state) that carries ONE record whose matchers do not compile among
+// good ones, in every position. The uncompilable one is kept (unindexed: it cannot mute anything), every other record
+// merges exactly as if it had been delivered on its own: one instance gets the batch, the other the records one by one.
+func mixedBatchCases(g *vh.Rand) []Case {
+	var out []Case
+	for pos := 0; pos < 4; pos++ {
+		for _, bad := range []string{"(", "a{2,1}"} {
+			c := Case{Retention: int64(time.Hour)}
+			k := 0
+			for j := 0; j < 4; j++ {
+				v := Ver{ID: fmt.Sprintf("mix-%d", j), Start: epoch - 60_000_000_000, End: epoch + int64(2*time.Hour), Upd: epoch - int64(50-j)*1_000_000_000,
+					Exp: epoch + int64(3*time.Hour), By: "peer", Comment: fmt.Sprintf("mix%d", j)}
+				if j == pos {
+					v.Sets = [][]Mat{{{1, "a", bad}}}
+				} else {
+					v.Sets = [][]Mat{vh.Pick(g, [][]Mat{{{0, "a", "1"}}, {{1, "a", "1|2"}, {2, "b", "x1"}}, {{3, "b", "x.*"}}})}
+					k++
+				}
+				c.Vers = append(c.Vers, v)
+			}
+			a := g.Intn(2)
+			c.Steps = append(c.Steps, Step{Inst: a, Dt: 1, Kind: "merge", Pool: []int{0, 1, 2, 3}})
+			for j := 0; j < 4; j++ {
+				c.Steps = append(c.Steps, Step{Inst: 1 - a, Dt: 1, Kind: "merge", Pool: []int{j}})
+			}
+			c.Steps = append(c.Steps,
+				Step{Inst: a, Kind: "query", Params: []QP{{Kind: "state", States: []string{"active"}}, {Kind: "matches", Labels: map[string]string{"a": "1", "b": "2"}}}},
+				Step{Dt: 1, Kind: "sync"}, Step{Inst: 1 - a, Kind: "remerge"},
+				Step{Inst: a, Dt: 1_000_000_000, Kind: "expire", ID: fmt.Sprintf("mix-%d", (pos+1)%4)}, Step{Dt: 1, Kind: "sync"})
+			out = append(out, c)
+		}
+	}
+	return out
+}
+
+// recorderCases: both instances run with a real event recorder (no outputs configured) and record-enabled contexts, as
+// with --enable-feature=event-recorder. Silences whose matchers are NOT in alphabetical order are created and edited
+// locally; recording an event must not touch what is stored: origin and peer hold identical content, matcher order
+// included, and the broadcast bytes decode to what the origin stores.
+func recorderCases(g *vh.Rand, n int) []Case {
+	var out []Case
+	for k := 0; k < n; k++ {
+		a := g.Intn(2)
+		c := Case{Retention: int64(time.Hour), Recorder: true}
+		c.Steps = append(c.Steps,
+			Step{Inst: a, Dt: 1_000_000_000, Kind: "create", Unsorted: true},
+			Step{Inst: 1 - a, Dt: 1, Kind: "merge", Pool: []int{0}},
+			Step{Inst: a, Dt: 1_000_000_000, Kind: "set", ID: "u0", Edit: vh.Pick(g, []string{"comment", "end"})},
+			Step{Inst: 1 - a, Dt: 1, Kind: "merge", Pool: []int{1}},
+			Step{Inst: a, Kind: "query", Params: []QP{{Kind: "state", States: []string{"active"}}, {Kind: "matches", Labels: map[string]string{"a": "x1", "b": "2"}}}},
+			Step{Dt: 1, Kind: "sync"},
+			Step{Inst: 1 - a, Dt: 1_000_000_000, Kind: "create", Unsorted: true},
+			Step{Inst: vh.Pick(g, []int{a, 1 - a}), Dt: 1_000_000_000, Kind: "expire", ID: "u0"},
+			Step{Dt: 1, Kind: "sync"}, Step{Inst: a, Kind: "remerge"})
+		out = append(out, c)
+	}
+	return out
+}
+
 // permutations of 0..n-1
 func perms(n int) [][]int {
 	if n == 0 {
@@ -1057,6 +1132,9 @@ func runCase(t *testing.T, c *Case, ext string) (term string, viol []vh.Violatio
 		}
 		for k := range c.Steps {
 			r.exec(k)
+		}
+		for _, rec := range r.recorders {
+			rec.Close()
 		}
 		// direct convergence oracle: same unexpired deliveries on both sides => same content
 		a, b := r.in[0], r.in[1]
@@ -1161,6 +1239,14 @@ func TestCheck(t *testing.T) {
 				finish(&c, fmt.Sprintf("all-orders-%d", n))
 			}
 		}
+		for _, c := range recorderCases(g.Fork(), 8) {
+			c := c
+			finish(&c, "event-recorder-enabled")
+		}
+		for _, c := range mixedBatchCases(g.Fork()) {
+			c := c
+			finish(&c, "one-uncompilable-record-in-a-batch")
+		}
 		for _, c := range capacityCases(g.Fork()) {
 			c := c
 			finish(&c, "max-silences-on-all-members")
@@ -1180,6 +1266,9 @@ func TestCheck(t *testing.T) {
 		}
 		for i := 0; i < n; i++ {
 			c := genCase(g.Fork(), maxSteps)
+			if i%4 == 3 {
+				c.Recorder = true
+			}
 			finish(&c, "random")
 		}
 	}
